@@ -331,6 +331,45 @@ def r10_6(ctx: Ctx) -> None:
         raise AnalysisError(f"expected at least 3 number-list qualifiers in to_biopython methods, found {count}")
 
 
+LOCS = "antismash/common/secmet/locations.py"
+
+
+def _names_behind(func: ast.AST, expr: ast.AST) -> Set[str]:
+    """ every name the expression may derive from, through plain and tuple-unpacking assignments of the function """
+    names: Set[str] = set()
+    todo = [n.id for n in ast.walk(expr) if isinstance(n, ast.Name)]
+    while todo:
+        name = todo.pop()
+        if name in names:
+            continue
+        names.add(name)
+        for node in walk_local(func):
+            if isinstance(node, (ast.Assign, ast.AnnAssign)) and node.value is not None:
+                targets = node.targets if isinstance(node, ast.Assign) else [node.target]
+                if any(isinstance(x, ast.Name) and x.id == name for t in targets for x in ast.walk(t)):
+                    todo += [x.id for x in ast.walk(node.value) if isinstance(x, ast.Name)]
+    return names
+
+
+def r10_7(ctx: Ctx) -> None:
+    """ the results JSON stores locations as str(location): `operator{part, part}` for compound ones; the reader has to
+        hand the parsed operator back (join and order are different locations) """
+    qual = "location_from_string"
+    func = ctx.fn(LOCS, qual)
+    param = func.args.args[0].arg
+    ctors = [c for c in calls(func) if call_name(c) == "CompoundLocation"]
+    if not ctors:
+        raise AnalysisError(f"{qual}: no CompoundLocation is rebuilt from the string")
+    for ctor in ctors:
+        op = kwarg(ctor, "operator") or (ctor.args[1] if len(ctor.args) > 1 else None)
+        from_text = op is not None and param in _names_behind(func, op)
+        ctx.ob("R10.7", LOCS, ctor, qual, "compound operator restored", bool(from_text),
+               "a compound location read back from its string form keeps the operator that was written (the default `join` "
+               "would turn every `order(...)` location into a different one)",
+               detail="" if from_text else "CompoundLocation built without the operator parsed from the text",
+               form=txt(ctor)[:100])
+
+
 def run(ctx: Ctx) -> None:
     ctx.rule("R10.1", "qualifiers required on reload are written by to_biopython", floor=12)
     ctx.rule("R10.2", "all stored feature lists are written out; dispatch by resolved feature type", floor=12)
@@ -340,6 +379,8 @@ def run(ctx: Ctx) -> None:
     ctx.rule("R10.6", "member-number lists are written in member order, never string-sorted", floor=3)
     r10_1(ctx)
     r10_6(ctx)
+    ctx.rule("R10.7", "location strings are read back with their compound operator", floor=1)
+    r10_7(ctx)
     r10_2(ctx)
     r10_3(ctx)
     r10_4(ctx)
